@@ -211,8 +211,8 @@ theorem serialize_encodes_aux (cat : List CatEntry) (l : Layout) (hok : l.OK cat
     · simp [h1]
     · by_cases h2 : l.minor = 1
       · obtain ⟨hns, x, y, hxy, hxl⟩ := hok.sysdep h2
-        simp only [h1, h2, if_false, if_true]
-        refine ⟨l.nSysdep, ⟨hns, magicOf l.be ++ W ++ x, y ++ descTable l.be d1 ++ l.gap ++ descTable l.be d2 ++ l.gap2 ++ strings ++ l.trailer, ?_, ?_⟩, by simp [h2]⟩
+        simp only [h2, if_true]
+        refine ⟨l.nSysdep, ⟨hns, magicOf l.be ++ W ++ x, y ++ descTable l.be d1 ++ l.gap ++ descTable l.be d2 ++ l.gap2 ++ strings ++ l.trailer, ?_, ?_⟩, by simp⟩
         · simp only [b, hxy, List.append_assoc]
         · simp [magicOf_length, hWl, hxl]
       · simp [h1, h2]
